@@ -118,6 +118,11 @@ def main():
         # ... and String arrays (top level, inside a structure) with an element longer than the |S128 the DDS parser declares
         corpus.append(("dataset", "ls0", (("base", "s0", "S", (2,), ("x" * 130 + "END", "ab")), ("base", "t", "i", (), (5,)))))
         corpus.append(("dataset", "ls1", (("struct", "st", (("base", "m", "S", (2, 2), ("a", "b" * 128, "c" * 129, "")),)),)))
+        # ... and a nested sequence whose outer String values have lengths 0, 4, 8 (the encoder then yields empty padding chunks)
+        corpus.append(("dataset", "ns0", (("seq", "q", (("base", "a", "i", (), ()), ("base", "s", "S", (), ()),
+                                                          ("seq", "inner", (("base", "x", "d", (), ()),), ())),
+                                            ((1, "abc", ((1.5,),)), (2, "abcd", ()), (3, "", ((2.5,), (3.5,))), (4, "abcdefgh", ()),
+                                             (5, "ab", ((4.5,),)))),)))
         while done < n and attempts < 20 * n:
             attempts += 1
             desc = corpus.pop(0) if corpus else G.gen_dataset(rng)
